@@ -562,7 +562,7 @@ Lemma shr_do_media h c x s to mk stream media :
 Proof.
   intros Hs. unfold do_media. destruct to as [i|u| |]; try apply shr_refl.
   destruct (N.eqb mk 0).
-  - destruct (negb (offer_allowed (s_perms s) stream media)); [apply shr_refl|].
+  - destruct (negb (offer_allowed (s_perms s) stream _)); [apply shr_refl|].
     destruct (aget (s_pubs s) stream); [|apply shr_start_create].
     eapply shr_trans; [|apply shr_send_session]. apply shr_put with s; [exact Hs|now apply keeps_same].
   - destruct (N.eqb mk 1).
@@ -1991,7 +1991,7 @@ Proof.
   { intros e. split; [apply fr_refl|]. apply outs_ok_cons_own; [reflexivity|apply outs_ok_nil]. }
   destruct to as [i|u| |]; try apply loc_ret.
   destruct (N.eqb mk 0).
-  - destruct (negb (offer_allowed (s_perms s) stream media)); [apply Herr|].
+  - destruct (negb (offer_allowed (s_perms s) stream _)); [apply Herr|].
     destruct (aget (s_pubs s) stream).
     + match goal with |- context [put_sess h x ?s1] => set (s' := s1) end.
       assert (F1 : Fr b (Some c) h (put_sess h x s')) by (apply fr_put with s; auto).
